@@ -100,6 +100,10 @@ pub struct HistScenario {
     pub coarse_ids: bool,
     /// the long-lived parser comes from `Parser::default()` (the references from `new()`), or the other way round
     pub ctor_default: bool,
+    /// a second, unrelated parser lives next to the one under test: it is created on another
+    /// caller, receives one mutation for each mutation of the first (other contents), and is
+    /// validated on the same thread right before every observation of the first
+    pub shadow_parser: bool,
 }
 
 pub fn size(s: &HistScenario) -> (usize, usize) {
@@ -125,6 +129,7 @@ pub fn to_json(s: &HistScenario) -> J {
         .set("observe_every_step", J::Bool(s.observe_every_step))
         .set("coarse_ids", J::Bool(s.coarse_ids))
         .set("ctor_default", J::Bool(s.ctor_default))
+        .set("shadow_parser", J::Bool(s.shadow_parser))
         .set(
             "steps",
             J::Arr(
@@ -268,6 +273,7 @@ pub fn from_json(j: &J) -> Result<HistScenario, String> {
             .unwrap_or(true),
         coarse_ids: j.get("coarse_ids").and_then(|b| b.as_bool()).unwrap_or(false),
         ctor_default: j.get("ctor_default").and_then(|b| b.as_bool()).unwrap_or(false),
+        shadow_parser: j.get("shadow_parser").and_then(|b| b.as_bool()).unwrap_or(false),
     })
 }
 
@@ -644,6 +650,7 @@ fn generate_tiny(rng: &mut Rng) -> (HistScenario, String) {
             observe_every_step,
             coarse_ids,
             ctor_default: rng.pct(50),
+            shadow_parser: rng.pct(20),
         },
         desc,
     )
@@ -1150,6 +1157,7 @@ pub fn generate(rng: &mut Rng, prop: Prop, thorough: bool) -> (HistScenario, Str
             observe_every_step,
             coarse_ids,
             ctor_default: rng.pct(50),
+            shadow_parser: rng.pct(20),
         },
         desc,
     )
@@ -1205,6 +1213,11 @@ pub fn shrink_candidates(s: &HistScenario) -> (Vec<HistScenario>, usize) {
     if !s.observe_every_step {
         let mut c = s.clone();
         c.observe_every_step = true;
+        out.push(c);
+    }
+    if s.shadow_parser {
+        let mut c = s.clone();
+        c.shadow_parser = false;
         out.push(c);
     }
     // simplify single steps
